@@ -143,6 +143,17 @@ CHECKS["C09"] = dict(
     design="8/C09", technique="TLA+ model of repeat / macro queue (Gen_Vi.tla over Vi.tla) evaluated by TLC; replay and two-run relation (M1)",
     note="A . or @ inside an executing macro is not generated (known nesting behaviour: keys are appended after the rest).")
 
+CHECKS["C19"] = dict(
+    level="model_checking",
+    text="Term.tla is a terminal state machine over a grid of cells with one action per control function the editor emits and "
+         "Render, what a repaint of a window shows. TraceTerm.tla consumes, in program order, the control functions lexed from "
+         "the bytes the traced vi -v wrote and the editor state recorded at every command boundary; TLC validates the trace: at "
+         "every boundary every row of the window equals Render of the recorded lines / top / left, the cursor line is inside the "
+         "window and the terminal cursor is on the cell of the cursor character. Completeness by the diameter postcondition.",
+    design="8/C19", technique="TLA+ terminal model; TLC trace validation of the recorded tty stream against the recorded editor state (M1)",
+    note="Only the active, unsplit, left-to-right window; status row and attributes are not compared; terminal widths are "
+         "assumed to agree with the editor's tables. The lexer (ttylex.py) is trusted; unknown sequences fail the trace.")
+
 NOT_YET = {}
 
 def main():
